@@ -31,7 +31,7 @@ REQUIRED_CLASSES = ['cls:Reaction', 'cls:ChemkinReaction', 'cls:SurfaceReaction'
                     'flavor:mixed', 'flavor:empirical', 'ts:0', 'ts:1', 'ts:2', 'block', 'block:falsy_override', 'fractional',
                     'twin:same_name_other_object', 'twin:block_addressed', 'E_act:del_m=0', 'E_act:del_m=None',
                     'E_act:del_m=0:molecularity_changes', 'block:before_shared_condition', 'keq:edge_window', 'keq:edge_window:>700',
-                    'bep_ts', 'bep_ts:block', 'bep_ts:entropy_state=products', 'bep_ts:entropy_state=None',
+                    'bep_ts', 'bep_ts:block', 'bep_ts:no_shared_keyword', 'bep_ts:entropy_state=products', 'bep_ts:entropy_state=None',
                     'bep_ts:bep=omkm', 'bep_ts:bep=plain', 'bep_ts:direction_labels_differ',
                     'hist:species_renamed', 'name:api_word', 'name:api_word:block_addressed']
 REQUIRED_PROBES = ['Reaction.get_state_quantity', 'Reaction.get_delta_quantity', '_get_specie_kwargs',
@@ -242,6 +242,26 @@ def _bep_ts(spec, ctx):
         ctx.close('H5', math.log(_f(ka)), -dGa, 1e-9, dict(base, what='Keq_act'), scale=max(1.0, abs(dGa), mag))
     ctx.check('H7', cond == snapshot, dict(base, what='conditions_mutated'), before=repr(snapshot)[:300],
               after=repr(cond)[:300])
+    # the same call with NO shared keyword at all: every condition travels inside the per-species blocks (the BEP's
+    # block included); the caller's nested dictionaries must come back as they went in and the value is the same
+    shared = {k: v for k, v in cond.items() if not k.endswith('_kwargs')}
+    names = [n for n, _ in spec['reactants']] + [n for n, _ in spec['products']] + [b['name']]
+    cond2 = {}
+    for n in dict.fromkeys(names):
+        blk = dict(shared)
+        blk.update(cond.get('%s_kwargs' % n, {}))
+        cond2['%s_kwargs' % n] = blk
+    snap2 = copy.deepcopy(cond2)
+    for q in ('HoRT', 'GoRT'):
+        try:
+            g2 = getattr(rxn, 'get_delta_' + q)(rev=False, act=True, **cond2)
+        except Exception as e:
+            ctx.extra['H7:no_shared_keyword_call_raised'] = ctx.extra.get('H7:no_shared_keyword_call_raised', 0) + 1
+            continue
+        ctx.cls('bep_ts:no_shared_keyword')
+        ctx.check('H7', cond2 == snap2, dict(base, what='nested_block_mutated', call='no_shared_keyword'),
+                  before=repr(snap2)[:300], after=repr(cond2)[:300])
+        cond2 = copy.deepcopy(snap2)
 
 
 def run_case(spec, ctx):
